@@ -65,6 +65,13 @@ func cellValue(p *Prog, v ssa.Value) ssa.Value {
 
 func runC19(c *Ctx) {
 	p := c.P
+	if !importing {
+		// "a side that ends has all its earlier bytes forwarded first" relies on the transport's Read
+		// handing over the bytes that arrived together with the error (C01.R8)
+		importObls(c, "C01", runC01, "X01", func(k string) bool { return containsAny(k, "#bytes-with-error-kept") })
+		// "an error ends the relay": no copier retries on a temporary error (C10.R3)
+		importObls(c, "C10", runC10, "X10", func(k string) bool { return containsAny(k, "retry-on-temporary") })
+	}
 	noRetainedWriteArg(c, p, "R1")
 	cl := p.Func("obfs4proxy:copyLoop")
 	ob := c.Obl("R1", "obfs4proxy:copyLoop#copiers", "the relay starts exactly two copier goroutines, outside any loop, one per direction: io.Copy(b, a) and io.Copy(a, b)")
